@@ -147,7 +147,7 @@ theorem R_connBlock {s : St} {t : Spec.LSt} (hs : Emit.Inv s) (hR : R s t) {pm p
             refine ⟨c0, hc0, ?_⟩
             split <;> rfl
           exact ⟨hR.T, hR.S, hR.G, ptrs_mono (Nat.le_refl _) hle hR.C, ptrs_mono (Nat.le_refl _) hle hR.K,
-            hR.sigs.set i ⟨hcells, hr.active, hr.dirty, hr.limbo⟩, hR.ownedT, ptrs_mono (Nat.le_refl _) hle hR.ownedK,
+            hR.sigs.set i ⟨hcells, hr.active, hr.dirty, hr.limbo⟩, hR.ownedT, ptrs_mono (Nat.le_refl _) hle hR.ownedK, hR.ownedG,
             hR.next, hR.depth, hR.steps, hR.trace, hR.k1, hR.k2⟩
         | true =>
           simp only [Spec.updCell, hdead hz]
@@ -165,7 +165,7 @@ theorem R_connBlock {s : St} {t : Spec.LSt} (hs : Emit.Inv s) (hR : R s t) {pm p
               exact ⟨h1, (sameHold_blocked _ _).trans h2⟩
             · simp only [e, if_false]; exact hcd'
           exact ⟨hR.T, hR.S, hR.G, hR.C, hR.K, hR.sigs.set_left hgi ⟨hcells, hr.active, hr.dirty, hr.limbo⟩, hR.ownedT,
-            hR.ownedK, hR.next, hR.depth, hR.steps, hR.trace, hR.k1, hR.k2⟩
+            hR.ownedK, hR.ownedG, hR.next, hR.depth, hR.steps, hR.trace, hR.k1, hR.k2⟩
   · subst e; subst e2
     simp only [Model.connBlock, Spec.updCell, gone_findSig hgone]
     exact hR
